@@ -101,6 +101,16 @@ Proof.
 Qed.
 Print Assumptions c16_same.
 
+(* metric creation and registration read label names back from the label pairs they built
+   (HistogramCore::new: the reserved name le; register: clash with the registry's common labels);
+   the names, hence those Ok / Err decisions, are the same *)
+Theorem c16_same_label_names vars consts :
+  label_names_dm pb (make_label_pairs_dm pb vars (const_pairs_dm pb consts))
+  = label_names_dm plain (make_label_pairs_dm plain vars (const_pairs_dm plain consts))
+  /\ label_names_dm pb (const_pairs_dm pb consts) = label_names_dm plain (const_pairs_dm plain consts).
+Proof. exact (created_label_names_hom hom_view_pb vars consts). Qed.
+Print Assumptions c16_same_label_names.
+
 (* the two halves for ARBITRARY related arguments (families that were not produced by the
    modelled collectors, any output buffer, all three entry points) *)
 Theorem c16_same_gather prefix labels cpb cpl :
